@@ -26,7 +26,7 @@ ASSUMPTIONS = ["between 'upstream partly cleared' and 'operation dead' the flag 
                "internal table residue (_array_tracker) is not judged, only flags"]
 TIERS = {"quick": {"cases": 2500, "nst": (4, 14), "gcinject": 0.0}, "thorough": {"cases": 16000, "nst": (6, 30), "gcinject": 0.04}}
 FLOORS = {"quick": {"I1_evals": 20000, "I2_evals": 40000, "quiescent_arrays": 8000},
-          "thorough": {"I1_evals": 300000, "I2_evals": 500000, "quiescent_arrays": 40000}}
+          "thorough": {"I1_evals": 100000, "I2_evals": 200000, "quiescent_arrays": 40000}}
 
 UN = ["exp", "sin", "tanh", "negative", "square"]
 BI = ["add", "multiply", "subtract", "maximum"]
